@@ -413,9 +413,9 @@ def run_core(pid, tier, seed):
     # ---- intensify O when P or M is broken and no concrete input yet
     if (not p["ok"] or m_broken) and not o_viols:
         log(f"[{pid}] proof or correspondence broken: searching the implementation for a failing input")
-        for extra in range(1, 4):
+        for extra in range(1, 3):
             for (crate, mode, ns) in spec["runs"]:
-                r = run_mode(pid, crate, mode, max(ns[tier], 1) * (2 if ns[tier] else 1), seed + 1000 * extra, profiles[0], os.path.join(wdir, f"search{extra}"), spec["proj"])
+                r = run_mode(pid, crate, mode, ns[tier], seed + 1000 * extra, profiles[0], os.path.join(wdir, f"search{extra}"), spec["proj"])
                 runs.append(r)
                 o_viols += [v for v in r["viols"] if v["tag"] in spec["tags"]]
             if o_viols:
